@@ -1,6 +1,6 @@
 """E4 — COLOUR: provenance and dispatch of located buckets (DESIGN §5/E4)."""
 from core import Loc, Path
-from engine import RuleResult, MAIN, LEFT, OLD, CURSOR
+from engine import RuleResult, MAIN, LEFT, OLD, CURSOR, strip_generics
 from rules_protocol import hb_calls, HBT, HBI
 
 MIXED = "MIXED"
@@ -32,6 +32,24 @@ def closure_call_site(ctx, cbody):
                 if a["place"]["local"] == cl_local:
                     return pb, c
     return None
+
+
+def fn_use_sites(ctx, body):
+    """(parent body, Call, 'direct'|'value') for every use of a named griddle function: called, or passed as a function value"""
+    def build():
+        idx = {}
+        for pb in ctx.facts.bodies.values():
+            for c in ctx.calls(pb):
+                lc = c.local_callee()
+                if lc is not None and lc.kind != "Closure":
+                    idx.setdefault(lc.path, []).append((pb, c, "direct"))
+                for a in c.args:
+                    if a["k"] == "const" and a.get("fn"):
+                        nm = strip_generics(a["fn"])
+                        idx.setdefault("~" + nm, []).append((pb, c, "value"))
+        return idx
+    idx = ctx.memo("fn_use_sites", build)
+    return idx.get(body.path, []) + idx.get("~" + strip_generics(body.path), [])
 
 
 def ret_role(ctx, body, depth=0):
@@ -124,7 +142,32 @@ def path_role(ctx, body, p, depth=0):
             roles.append(op_role(ctx, pb, a, depth + 1))
         return _join(roles)
     if 1 <= root <= body.arg_count:
-        return None
+        if body.kind == "Closure":
+            return None
+        # parameter of a named function: the side is whatever every use of the function hands it
+        key = ("param_role", body.path, root)
+        if key in ctx._cache:
+            return ctx._cache[key]
+        ctx._cache[key] = None
+        roles = []
+        for pb, c, mode in fn_use_sites(ctx, body):
+            if mode == "direct":
+                if root - 1 < len(c.args):
+                    roles.append(op_role(ctx, pb, c.args[root - 1], depth + 1))
+            else:
+                # passed as a function value to a combinator: its parameters carry the side of the combinator's other arguments
+                rs = []
+                for a in c.args:
+                    if a["k"] == "const" and a.get("fn") and strip_generics(a["fn"]) == strip_generics(body.path):
+                        continue
+                    rs.append(op_role(ctx, pb, a, depth + 1))
+                roles.append(_join(rs))
+        if roles and any(r is None for r in roles):
+            r = None
+        else:
+            r = _join(roles)
+        ctx._cache[key] = r
+        return r
     d = body.unique_def(root)
     if d is None:
         ds = [x for x in body.defs().get(root, []) if x[1] in ("assign", "call") and not body.is_cleanup(x[0].bb)]
@@ -182,7 +225,10 @@ def rule_k_new(ctx):
             if side != want:
                 R.viol("%s:%s" % (key, "main" if cval else "old"), b.where(loc),
                        "located bucket labelled in_main=%s but its raw bucket comes from %s" % (bool(cval), side or "an unknown table (unproven)"))
-    R.floor(9, "located-bucket constructions")
+    R.floor(2, "located-bucket constructions")
+    flags = {i.get("flag") for i in R.instances}
+    if not ({True, False} <= flags):
+        R.anchor("both-colours", "expected constructions labelled main and old, found flags %s" % sorted(map(str, flags)))
     return R
 
 
@@ -323,8 +369,8 @@ def rule_k_use(ctx):
             R.viol(key + ":undispatched", c.where(), "%s is applied to %s with a located bucket's raw bucket but no test of that bucket's location flag dominates the call" % (c.tname, role))
         elif found != want:
             R.viol(key + ":wrong-table", c.where(), "%s is applied to the %s side on the path where the bucket's flag says it lives in the %s table" % (c.tname, want, found))
-    if n < 7:
-        R.anchor("dispatch-sites", "expected >= 7 hashbrown calls dispatched on a located bucket, found %d" % n)
+    if n < 4:
+        R.anchor("dispatch-sites", "expected >= 4 hashbrown calls dispatched on a located bucket, found %d" % n)
     return R
 
 
@@ -349,5 +395,5 @@ def rule_k_field(ctx):
                 R.viol("%s:%s:main-field" % (b.path, rv["adt"]), b.where(loc), "main-side field of %s is initialised from %s" % (rv["adt"], ms or "an unknown source (unproven)"))
             if not (os_ == OLD or none_const):
                 R.viol("%s:%s:old-field" % (b.path, rv["adt"]), b.where(loc), "old-side field of %s is initialised from %s" % (rv["adt"], os_ or "an unknown source (unproven)"))
-    R.floor(6, "composite-iterator constructions")
+    R.floor(3, "composite-iterator constructions")
     return R
